@@ -3,3 +3,7 @@
 
 def replay_items(chk):
     pass
+
+
+def done_callback_total(chk, prefix):
+    pass
